@@ -336,20 +336,23 @@ Definition gstep (s : gstate) (l : glabel) : option gstate :=
         end
       else None
   | GInit p =>
-      if running s p && isNone (get (ginner s) p) then
+      (* runAnalyzers is entered at most once per package action, while its exec is running; the analyzer
+         graph built by newAnalyzerAction is well formed (checked, so that a recorded graph that is not is
+         rejected) *)
+      if running s p && isNone (get (ginner s) p) && wf_dagb (ginnerd GG p) then
         Some (mkg (gtop s) (set (ginner s) p (Some (init (ginnerd GG p)))) (gfree s) (gover s))
       else None
   | GIn p e =>
-      if running s p then
-        match get (ginner s) p with
-        | Some si =>
-            match step false strict (ginnerd GG p) si (gfree s) e with
-            | Some (si', f') => Some (mkg (gtop s) (set (ginner s) p (Some si')) f' (gover s || (cap <? f')))
-            | None => None
-            end
-        | None => None
-        end
-      else None
+      (* analyzer-level steps may still happen after the package's exec has returned: the goroutine that
+         handled the analyzer root releases its token after it closed the queue *)
+      match get (ginner s) p with
+      | Some si =>
+          match step false strict (ginnerd GG p) si (gfree s) e with
+          | Some (si', f') => Some (mkg (gtop s) (set (ginner s) p (Some si')) f' (gover s || (cap <? f')))
+          | None => None
+          end
+      | None => None
+      end
   end.
 
 Definition gfinal (s : gstate) : bool := final (gtop s).
@@ -457,7 +460,7 @@ Fixpoint inits (tr : list (glabel Rp Ra)) : list nat :=
 (* [valid_trace]: the graphs are well formed, every label is a step, no action got a second handler, the
    semaphore never exceeded its capacity, and the run is complete (the package-level loop has ended). *)
 Definition valid_trace (GG : gdag) (cap : nat) (tr : list (glabel Rp Ra)) : bool :=
-  (1 <=? cap) && wf_dagb (gtopd GG) && forallb (fun p => wf_dagb (ginnerd GG p)) (inits tr)
+  (1 <=? cap) && wf_dagb (gtopd GG)
   && match grun false GG cap (ginit GG cap) tr with
      | Some s => gfinal s && negb (bad (gtop s)) && negb (gover s)
                  && forallb (fun p => match get (ginner s) p with Some si => negb (bad si) | None => true end) (inits tr)
